@@ -58,6 +58,7 @@ Proof.
        match goal with E : step _ _ = _ |- _ => rewrite E; reflexivity end; fail);
   try (match goal with C : create_mailbox_row _ _ _ = Some _ |- _ =>
          destruct (create_row_links _ _ _ _ _ C) end);
+  try (match goal with |- context [add_defaults ?s ?t] => destruct (add_defaults_links s t) end);
   apply EQuiet; auto; discriminate.
 Qed.
 
